@@ -3,6 +3,7 @@ CONSTANTS
   AckMode = "any"
   ThrMode = "fixed"
   EmptyMode = "fixed"
+  RstMode = "pinned"
   CfgSet <- CoreCfgsQ
   SameCfg = TRUE
   Openers = {"A"}
